@@ -10,6 +10,7 @@ import (
 	"github.com/bbva/qed/balloon"
 	"github.com/bbva/qed/balloon/history"
 	"github.com/bbva/qed/crypto/hashing"
+	"github.com/bbva/qed/storage"
 	"github.com/bbva/qed/zzverif/models"
 	"github.com/bbva/qed/zzverif/rt"
 )
@@ -195,6 +196,50 @@ func run(cluster bool) {
 
 func Spread()  { run(false) }
 func Cluster() { run(true) }
+
+// LongRestart: one long run — BULKS bulks of PER events whose digests have pairwise distinct
+// 20-bit prefixes, so that the persisted hyper cache holds more recovery tiles than one read
+// page of the warm-up (1000) — fed to two logs; one of them is restarted (a new Balloon over
+// the same store) before the last events. Every later snapshot must be the same in both.
+func LongRestart() {
+	bulks := rt.Param("BULKS", 22)
+	per := rt.Param("PER", 50)
+	a, b := models.NewLog(bits), models.NewLog(bits)
+	k := 0
+	next := func(m int) []hashing.Digest {
+		var ds []hashing.Digest
+		for i := 0; i < m; i++ {
+			// 20-bit prefix = k (distinct), remaining bits symbolic
+			ds = append(ds, models.PrefixedDigest(fmt.Sprintf("d%d", k), bits/8, byte(k>>12), byte(k>>4), byte(k<<4)))
+			k++
+		}
+		return ds
+	}
+	for i := 0; i < bulks; i++ {
+		ds := next(per)
+		a.AddBulk(ds)
+		b.AddBulk(ds)
+	}
+	rt.Bound("recovery_tiles", len(b.Store.Dump(storage.HyperCacheTable)))
+	rt.Cover(len(b.Store.Dump(storage.HyperCacheTable)) > 1000, "more-tiles-than-one-page")
+	nb, err := balloon.NewBalloon(b.Store, rt.HasherF(bits))
+	rt.Assert(err == nil, "reopen-ok")
+	b.B = nb
+	rt.Assert(nb.Version() == uint64(bulks*per), "version-after-restart")
+	for _, ds := range [][]hashing.Digest{next(1), next(2)} {
+		var sa, sb []*balloon.Snapshot
+		if len(ds) == 1 {
+			sa, sb = []*balloon.Snapshot{a.Add(ds[0])}, []*balloon.Snapshot{b.Add(ds[0])}
+		} else {
+			sa, sb = a.AddBulk(ds), b.AddBulk(ds)
+		}
+		for i := range sa {
+			rt.Assert(sa[i].Version == sb[i].Version, "restart:same-version")
+			rt.Assert(bytes.Equal(sa[i].HistoryDigest, sb[i].HistoryDigest), "restart:history-digest-independent-of-restarts")
+			rt.Assert(bytes.Equal(sa[i].HyperDigest, sb[i].HyperDigest), "restart:hyper-digest-independent-of-restarts")
+		}
+	}
+}
 
 // EachHyper: with single Adds every snapshot's hyper digest is the canonical root of its prefix.
 func EachHyper() {
